@@ -131,7 +131,7 @@ impl Property for C04 {
     }
 
     fn cases(&self, tier: Tier) -> u32 {
-        tier.pick(12_000, 400_000)
+        tier.pick(100_000, 1_000_000)
     }
 
     fn rule(&self) -> String {
